@@ -125,6 +125,7 @@ def _page_back(vals):
 _PAGE_FNS = [(COM, "patch_function", 0), (COM, "make_memory_writable_and_executable"), (COM, "make_memory_writable_and_executable_linux"), (COM, "inject_asm_code")]
 H("c01_page_cover", module="verif_common.rs", props=["C01"], fns=_PAGE_FNS, covers=["COVER:end", "COVER:straddles", "COVER:straddles-two"],
   replay=lambda vals, verif: _replay_bin("c01_page_span", [_page_back(vals)], verif))
+H("c01_page_cover_seq", module="verif_common.rs", props=["C01"], fns=_PAGE_FNS, covers=["COVER:end", "COVER:same-first-page-then-straddle"])
 
 INT = "injector_core/internal.rs"
 VER = "interface/verifier.rs"
